@@ -233,7 +233,10 @@ def tlc_trace(ctx, module, events_path, shards=1, timeout=1800, per_shard_min=20
         nb = 0
         for line in out.splitlines():
             if line.startswith('"BAD '):
-                s = json.loads(line)
+                try:
+                    s = json.loads(line, strict=False)
+                except ValueError:
+                    s = line.strip().strip('"').replace('\\"', '"')
                 m = BAD_RE.match(s)
                 i = int(m.group(2))
                 bads.append({"prop": m.group(1), "i": i, "reason": m.group(3), "event": by_i.get(i), "module": module})
